@@ -69,6 +69,7 @@ def tasks(tier, seed):
     for det in (("ccd", "cmos") if tier == "quick" else DETS):
         out.append({"fn": "load_model", "kwargs": {"det": det, "how": "direct"}, "label": f"load_model/{det}/direct"})
         out.append({"fn": "load_model", "kwargs": {"det": det, "how": "pipeline"}, "label": f"load_model/{det}/pipeline"})
+        out.append({"fn": "load_model", "kwargs": {"det": det, "how": "twice"}, "label": f"load_model/{det}/twice"})
     return out
 
 
@@ -366,6 +367,13 @@ def load_model(det, how):
             if how == "direct":
                 load_detector(running, filename=path)
                 after = running
+            elif how == "twice":
+                # the same unmodified file loaded again after the running detector was changed in place
+                load_detector(running, filename=path)
+                running.empty()
+                running.pixel.array = running.pixel.array + 1.0
+                load_detector(running, filename=path)
+                after = running
             else:
                 def hook(d, tag, kwargs, rec):
                     seen["pixel"] = _arr_elems(d.pixel._array)
@@ -425,6 +433,10 @@ def replay(oid, kwargs, model, data):
         save_detector(stored, filename=path)
         running, _ = _build(det, "run_", flags, symbolic=False, values=vals)
         load_detector(running, filename=path)
+        if kwargs.get("how") == "twice":
+            running.empty()
+            running.pixel.array = running.pixel.array + 1.0
+            load_detector(running, filename=path)
         bad = {b: [getattr(running, "_" + b)._array.tolist(), getattr(stored, "_" + b)._array.tolist()] for b in ("photon", "pixel", "signal")
                if not np.array_equal(getattr(running, "_" + b)._array, getattr(stored, "_" + b)._array)}
         return bool(bad), {"running_detector_after_load_vs_file": bad}
